@@ -71,6 +71,7 @@ func knownRegion(r spec.Req) string {
 
 func runEnc(c encCase) harness.Result {
 	r := c.Req
+	r.Payload = append([]byte(nil), c.Req.Payload...) // this run's own buffer (it is refilled in place below)
 	labels := []string{fmt.Sprintf("fc%d", r.FC), c.Framing.String()}
 	q, err := cat.NewRequest(c.Framing, r)
 	if err != nil {
@@ -196,6 +197,20 @@ func runEnc(c encCase) harness.Result {
 		again := q.Bytes()
 		if !bytes.Equal(again, want) {
 			return harness.Fail("serialising the same request a second time gives %x, the first time %x", again, want)
+		}
+		// (e) the payload buffer is the caller's as well: a program refills one buffer with the next values and builds the next request
+		// from it (same unit, address and size, other contents)
+		if len(r.Payload) > 0 && (r.FC == 15 || r.FC == 16 || r.FC == 23) {
+			for i := range r.Payload {
+				r.Payload[i] ^= 0x3C
+			}
+			if q3, err := cat.NewRequest(c.Framing, r); err == nil {
+				want3 := spec.EncodeRequest(c.Framing, expected(r))
+				if got3 := q3.Bytes(); !bytes.Equal(got3, want3) {
+					return harness.Fail("after the caller refilled its payload buffer in place and built a new request from it, that request serialises to\n  %x\nthe specification prescribes\n  %x\n(the request built from the buffer's previous contents gave %x)", got3, want3, want)
+				}
+				labels = append(labels, "payload-buffer-refilled-in-place")
+			}
 		}
 	}
 	if known != "" {
